@@ -967,6 +967,66 @@ def canonicalise_params(doc):
             walk(pj.get("blocks"), m)
 
 
+def canonicalise_param_order(doc):
+    """Undo a pure *reordering* of the parameters of a function of the pinned tree (same names,
+    other order; jbv/param_names.json): the parameter locals of the body are renumbered into the
+    pinned order and the arguments of every call site are permuted the same way, so rules that
+    speak about `the first argument of Excitation::start` keep reading the same value."""
+    global _PARAM_TABLE
+    if _PARAM_TABLE is None:
+        try:
+            _PARAM_TABLE = json.load(open(os.path.join(os.path.dirname(os.path.abspath(__file__)), "param_names.json")))
+        except OSError:
+            _PARAM_TABLE = {}
+    table = _PARAM_TABLE
+    perms = {}
+    for b in doc["bodies"]:
+        rec = table.get(b["path"])
+        argc = b.get("argc", 0)
+        if rec is None or b.get("kind") == "Closure" or len(rec) != argc or argc < 2:
+            continue
+        locs = b["hdr"]["locals"]
+        act = [locs[i + 1].get("name") for i in range(argc)]
+        if act == rec or None in act or len(set(act)) != argc or sorted(act) != sorted(x or "" for x in rec):
+            continue
+        # act[i] is at pinned position rec.index(act[i])
+        perm = [rec.index(a) for a in act]
+        perms[b["path"]] = perm
+        from .inline import _remap_locals
+        f = lambda l, perm=perm, argc=argc: (perm[l - 1] + 1) if 1 <= l <= argc else l
+        _remap_locals(b.get("blocks"), f)
+        for pj in b.get("promoted") or []:
+            _remap_locals(pj.get("blocks"), f)
+        new_locs = list(locs)
+        for i in range(argc):
+            new_locs[perm[i] + 1] = locs[i + 1]
+        b["hdr"]["locals"] = new_locs
+        for vd in b["hdr"].get("var_debug_info") or []:
+            _remap_locals(vd, f)
+    if not perms:
+        return {}
+    for b in doc["bodies"]:
+        for blk in list(b.get("blocks") or []) + [x for pj in (b.get("promoted") or []) for x in pj.get("blocks", [])]:
+            t = blk.get("term") or {}
+            if t.get("k") != "call":
+                continue
+            c = t.get("callee") or {}
+            pth = c.get("resolved") or c.get("def")
+            perm = perms.get(pth) if c.get("k") == "fndef" else None
+            if perm is None or len(t.get("args", [])) != len(perm):
+                continue
+            args = list(t["args"])
+            for i, a in enumerate(t["args"]):
+                args[perm[i]] = a
+            t["args"] = args
+            if len(t.get("arg_tys") or []) == len(perm):
+                tys = list(t["arg_tys"])
+                for i, a in enumerate(t["arg_tys"]):
+                    tys[perm[i]] = a
+                t["arg_tys"] = tys
+    return perms
+
+
 class Program:
     def __init__(self, doc):
         self.doc = doc
@@ -1024,6 +1084,8 @@ class Program:
             if doc.get("crate") == "jbonsai":
                 canonicalise_fn_renames(doc)
             canonicalise_params(doc)
+            if doc.get("crate") == "jbonsai":
+                doc["param_order"] = canonicalise_param_order(doc)
             canonicalise_fields(doc)
         inl = []
         if not os.environ.get("JBV_NO_INLINE") and doc.get("crate") == "jbonsai":
